@@ -157,8 +157,8 @@ class Source:
             start += 1
         return Span(self.path, self.text, start, self._item_end(start))
 
-    def find_impl(self, impl_head):
-        """(body_open_idx, body_close_idx) of the impl block with the given header."""
+    def find_impls(self, impl_head):
+        """every impl block with the given header: [(start, body_open_idx, body_close_idx)]"""
         want = squeeze(impl_head)
         hits = []
         for mm in re.finditer(r"(?m)^impl\b", self.masked):
@@ -176,19 +176,26 @@ class Source:
                 j += 1
             if squeeze(self.text[k:j]) == want:
                 hits.append((k, j, match_close(self.masked, j)))
+        return hits
+
+    def find_impl(self, impl_head):
+        """(start, body_open_idx, body_close_idx) of THE impl block with the given header."""
+        hits = self.find_impls(impl_head)
         if len(hits) != 1:
             raise LostAnchor(f"{self.path}: impl `{norm(impl_head)}` matched {len(hits)} times")
         return hits[0]
 
     def find_fn(self, impl_head, name):
         """Span of `fn name` (with its visibility qualifiers) inside the impl, or at top level."""
-        if impl_head:
-            _, lo, hi = self.find_impl(impl_head)
-            depth = 1
-        else:
-            lo, hi, depth = 0, len(self.text), 0
         pat = re.compile(r"(?m)^[ \t]*((?:pub(?:\([a-z:_ ]+\))?\s+)?(?:const\s+)?fn\s+" + re.escape(name) + r")(?![A-Za-z0-9_])")
-        hits = [mm for mm in pat.finditer(self.masked, lo, hi) if depth_at(self.masked, mm.start()) == depth]
+        if impl_head:
+            # a type may have several inherent impl blocks with the same header: the fn must occur exactly once in all of them
+            blocks = self.find_impls(impl_head)
+            if not blocks:
+                raise LostAnchor(f"{self.path}: impl `{norm(impl_head)}` matched 0 times")
+            hits = [mm for (_, lo, hi) in blocks for mm in pat.finditer(self.masked, lo, hi) if depth_at(self.masked, mm.start()) == 1]
+        else:
+            hits = [mm for mm in pat.finditer(self.masked, 0, len(self.text)) if depth_at(self.masked, mm.start()) == 0]
         if len(hits) != 1:
             raise LostAnchor(f"{self.path}: fn `{name}` in `{norm(impl_head or '<top level>')}` matched {len(hits)} times")
         start = hits[0].start(1)
